@@ -87,6 +87,10 @@ def run(ctx):
               dup_project([("m", "$t(a, {\"count\": \"x\"})"), ("a", proj.A([proj.A(["v", proj.U(1)]), proj.A(["w"])])), ("n", "$t(zz)")])]
     # witness of the recorded finding C10-json5-u64 (integers above i64::MAX are JSON / YAML only)
     corpus.append(dup_project([("info", proj.U(18446744073709551615)), ("n", proj.A(["u64", proj.A(["max", proj.U(18446744073709551615)]), proj.A(["rest"])]))]))
+    # counts written as numbers that do not fit the range type: the same answer (an error) in every format, whichever integer
+    # callback (`visit_u64` / `visit_i64`) the format's reader uses
+    for ty, n in (("u8", 1000), ("u8", 256), ("i8", 300), ("i8", -200), ("u16", 70000), ("i16", -40000), ("u32", 4294967296), ("i32", 2147483648), ("u8", -1)):
+        corpus.append(dup_project([("n", proj.A([ty, proj.A(["first", proj.num(n), proj.U(1)]), proj.A(["rest"])])), ("k", "plain")]))
     projects = corpus + [proj.gen_project(rng) for _ in range(ctx.budget(250, 5000))]
     base = run_projects(ctx, bins["json"], projects)
     again = run_projects(ctx, bins["json"], projects, want_model=False)
